@@ -648,10 +648,13 @@ func (c *Client) HandleInbound(data []byte, from net.Addr) (bool, error) {
 	//  - Non-STUN message from the STUN server
 
 	switch {
-	case stun.IsMessage(data):
-		return true, c.handleSTUNMessage(data, from)
+	// ChannelData first: its payload is arbitrary application data and may well carry the
+	// STUN magic cookie at offset 4, whereas a STUN message never has a channel number
+	// (0x4000-0x7FFF) in its first two bytes.
 	case proto.IsChannelData(data):
 		return true, c.handleChannelData(data)
+	case stun.IsMessage(data):
+		return true, c.handleSTUNMessage(data, from)
 	case c.stunServerAddr != nil && from.String() == c.stunServerAddr.String():
 		// Received from STUN server but it is not a STUN message
 		return true, errNonSTUNMessage
